@@ -239,6 +239,11 @@ type Gen struct {
 	R        *common.Rand
 	MaxDepth int
 	Auth     bool // attach authorization rules to some fields
+	// Paths: data paths of length 0..3 on every node (paths.go). Unset: single-key field paths and
+	// empty item paths, the random stream C10 and C14 were built on.
+	Paths   bool
+	Overlap bool       // with Paths: let sibling paths be prefixes of one another (outside plan_wf)
+	Stats   *PathStats // with Paths: filled while generating
 }
 
 func (g *Gen) leaf(path []string) *Node {
@@ -349,7 +354,12 @@ func (g *Gen) object(depth int, path []string, encl [][]string) *Node {
 }
 
 func (g *Gen) Tree() *Node {
-	root := g.object(0, nil, nil)
+	var root *Node
+	if g.Paths {
+		root = g.objectP(0, nil, nil, nil, nil, true)
+	} else {
+		root = g.object(0, nil, nil)
+	}
 	root.Nullable = false
 	root.Unresolvable = false
 	root.TypeName = "Query"
@@ -439,6 +449,9 @@ func (g *Gen) anyValue(d int) *jv {
 
 // wellTyped builds a payload conforming to the node (value to be stored under the node's path by the caller)
 func (g *Gen) wellTyped(n *Node) *jv {
+	if g.Paths && (n.Kind == KArr || n.Kind == KObj) {
+		return g.wellTypedP(n)
+	}
 	if n.Nullable && g.R.Chance(1, 8) {
 		return &jv{kind: 'n'}
 	}
